@@ -346,16 +346,22 @@ def plan(ctx):
             if sel:
                 groups.append((sh, jitter(rng, 1000), sel, 60000, 120))
         for sh in all_shapes:
-            groups.append((sh, jitter(rng, 10000), ops_for(sh), 60000, 150))
+            ops = ops_for(sh)
+            if sh not in ("list", "vlist", "rdeep", "lbin", "nest", "conj", "sum", "none"):
+                # secondary shapes: crash-prone classes + a seed-dependent half of the walkers
+                walk = [o for o in ops if op_class(o) == "walk"]
+                keep = set(rng.sample(walk, (len(walk) + 1) // 2))
+                ops = [o for o in ops if op_class(o) != "walk" or o in keep]
+            groups.append((sh, jitter(rng, 10000), ops, 60000, 150))
         # 10^5: every shape, the crash-prone classes plus a seed-dependent sample of the walkers
         for sh in all_shapes:
             ops = ops_for(sh)
             walk = [o for o in ops if op_class(o) == "walk" and not o.startswith("write")]
             pick = rng.sample(walk, min(4, len(walk))) if walk else []
             crashy = [o for o in ops if op_class(o) != "walk"]
-            if sh in ("list", "rdeep", "lbin", "nest"):
-                sel = ops            # every operation on the four canonical shapes
-            elif sh in ("sum", "conj", "none", "vlist"):
+            if sh in ("list", "rdeep", "lbin"):
+                sel = ops            # every operation on the three canonical shapes
+            elif sh in ("nest", "sum", "conj", "none", "vlist"):
                 sel = pick + ["write"] * (1 if "write" in ops else 0) + crashy
             else:
                 sel = pick
